@@ -18,7 +18,10 @@ RULE = ("one case = one history of saves (categories Op/OpX/Op_Y/O/Op_ or, every
         "himself, limit, ordered/real-RNG/scripted-RNG listing, S3 key prefix, optional time window, through "
         "iter_recording_ids or find_matching_recording_ids with skip_incomplete on/off); deterministic streams: prefix "
         "categories x key prefixes, layout-literal categories x key prefixes x (plain / filter / window), flag values x "
-        "lookups, caller's flag filters x default lookup, day folders x limits x merge schedules; non-trivial = the lookup "
+        "lookups, caller's flag filters x default lookup, day folders x limits x merge schedules, histories with saves that FAIL "
+        "part-way on S3 (the bucket refuses the first or the second put of a save: of a new recording, of a stored one, of "
+        "one that is saved successfully on a retry; such a save stores nothing on the other cassettes) x key prefixes x "
+        "lookups + a random stream of such histories; non-trivial = the lookup "
         "selects a non-empty proper subset of the stored recordings; distinct = distinct (history, lookup)")
 EXHAUSTIVE = {"quick": False, "thorough": False}
 ASSUMPTIONS = [
@@ -29,6 +32,9 @@ ASSUMPTIONS = [
     "limit is None or >= 1 (limit=0 means 'no limit' on the in-memory/file cassette and 'nothing' on S3: recorded as "
     "an observation, not part of the theorem or of the count rule)",
     "cassettes_agree: metadata is JSON-native (S3 matches on json.loads of the encoded metadata)",
+    "a save that raised did not save: the model is run on the successful saves only (C15 proves that a save interrupted after "
+    "any of its bucket mutations leaves nothing that lookup can discover without being fetchable); the direct predicate "
+    "checks it on the implementation (not listed, or at least fetchable - the recording of a failed save must not be listed)",
     "the bucket holds no foreign key under this cassette's metadata root (C15 owns confinement); sibling key "
     "prefixes are exercised as decoys on the implementation side (with a category called 'metadata' only those "
     "siblings whose root is not inside this cassette's root: layout_decoys)",
@@ -609,7 +615,7 @@ MANIFEST = dict(
          'list the same recordings (unlimited, JSON-native metadata); the default lookup drops exactly the '
          'recordings whose incomplete flag is True. Models tied to /repo on every run by histories x lookups on the '
          'three real cassettes (fake bucket behind the real S3BasicFacade, scratch directory, fake clock/uuid, '
-         'scripted or real RNG); direct predicate (subset, exact category, filter, count, no duplicates, fetchable, '
+         'scripted or real RNG; also histories in which saves fail part-way on S3); direct predicate (subset, exact category, filter, count, no duplicates, fetchable, '
          'cassettes agree, skip-incomplete) on the implementation.',
     note='Trusted: Coq kernel + vm_compute; hand-written models of the three iter_recording_ids, iter_keys, '
          'find_matching_recording_ids; the C14 matcher model; strftime/listdir/shuffle/choice/uuid as oracles; '
